@@ -239,7 +239,10 @@ def main(argv=None):
     exit_code = 2
 
   proved_all = bool(pyvc_results) and not unproved and n_obl > 0 and n_obl == n_dis
-  level = 'proof' if proved_all else ('exploration' if not pyvc_results else 'other')
+  # the property as a whole is decided by proved kernel obligations + a bounded remainder:
+  # the level is always `other`, the split is spelled out in coverage (never `proof` while a
+  # clause of the property is only bounded)
+  level = 'other'
   cov = dict(bcov)
   cov.update(dict(
       obligations=n_obl, discharged=n_dis,
